@@ -104,13 +104,19 @@ struct NestS { #[serde(default)] a: Option<Box<NestS>>, #[serde(default)] x: Opt
 /// with the targets real programs use — `IgnoredAny`, `serde_json::Value`, derived recursive types. (The run-time type
 /// descriptions of the harness put a much larger visitor frame on every level than derived code does; they are used for
 /// all other inputs.)
+#[inline(never)]
 fn exercise_deep(bytes: &[u8]) -> String {
     use serde::de::IgnoredAny;
+    #[inline(never)]
     fn all<T: serde::de::DeserializeOwned>(name: &str, bytes: &[u8], opts: &serde_saphyr::Options) -> Option<String> {
         let tag = |ep: &str| Some(format!("panic {ep} deep {name}"));
         if std::env::var("VERIF_TRACE").is_ok() { eprintln!("exercise_deep {name}"); }
-        let r = catch(|| serde_saphyr::from_slice_with_options::<T>(bytes, opts.clone()).map(|_| ()).map_err(|e| render_all(&e)));
-        if r.is_err() { return tag("slice"); }
+        // the stack probe proper: nothing of the harness but this frame and `catch` sits above the crate's recursion
+        #[inline(never)]
+        fn slice_only<T: serde::de::DeserializeOwned>(bytes: &[u8], opts: &serde_saphyr::Options) -> bool {
+            catch(|| serde_saphyr::from_slice_with_options::<T>(bytes, opts.clone()).map(|_| ()).map_err(|e| render_all(&e))).is_err()
+        }
+        if slice_only::<T>(bytes, opts) { return tag("slice"); }
         if std::env::var("VERIF_TRACE").is_ok() { eprintln!("  slice done"); }
         let r = catch(|| serde_saphyr::from_reader_with_options::<_, T>(std::io::Cursor::new(bytes.to_vec()), opts.clone()).map(|_| ()).map_err(|e| render_all(&e)));
         if r.is_err() { return tag("reader"); }
@@ -139,6 +145,7 @@ fn exercise_deep(bytes: &[u8]) -> String {
 }
 
 /// run every entry point on one input; returns "ok" or "panic <entry>"
+#[inline(never)]
 fn exercise(bytes: &[u8], reader_too: bool) -> String {
     let cfgs = [
         Cfg { dup: 0, legacy_octal: false, strict_bool: false, ignore_binary: false, no_schema: false, budget: Some(Budget::default()), limits: AliasLimits::default() },
@@ -198,6 +205,24 @@ fn exercise(bytes: &[u8], reader_too: bool) -> String {
     "ok".into()
 }
 
+/// a legal target type whose `Deserialize` impl reads NOTHING from the deserializer (a constant)
+struct Nop;
+impl<'de> serde::Deserialize<'de> for Nop {
+    fn deserialize<D: serde::Deserializer<'de>>(_d: D) -> Result<Self, D::Error> { Ok(Nop) }
+}
+
+/// the multi-document entry points with a target that consumes nothing: they must still return
+#[inline(never)]
+fn exercise_nop(bytes: &[u8]) -> String {
+    let Ok(text) = std::str::from_utf8(bytes) else { return "ok".into() };
+    let mut rd = std::io::Cursor::new(bytes.to_vec());
+    let n = serde_saphyr::read::<_, Nop>(&mut rd).take(1000).count();
+    if n >= 1000 { return "endless iterator".into(); }
+    let r = catch(|| serde_saphyr::from_multiple::<Nop>(text).map(|v| v.len()).map_err(|e| render_all(&e)));
+    if r.is_err() { return "panic multi".into(); }
+    "ok".into()
+}
+
 /// worker: one hex-encoded input per line (`r` prefix = include reader entry points), answers `done <idx> <status>`
 fn worker() -> i32 {
     let stdin = std::io::stdin();
@@ -209,11 +234,12 @@ fn worker() -> i32 {
         let marker = parts.next().unwrap_or("s").to_string();
         let reader_too = marker == "r" || marker == "d";
         let deep = marker == "d";
+        let nop = marker == "n";
         let bytes = unhex(parts.next().unwrap_or("x")).unwrap_or_default();
         // run on a thread with an 8 MiB stack: the property's stack clause
         let b2 = bytes.clone();
         let stack_kib: usize = std::env::var("VERIF_STACK_KIB").ok().and_then(|v| v.parse().ok()).unwrap_or(8 << 10);
-        let h = std::thread::Builder::new().stack_size(stack_kib << 10).spawn(move || if deep { exercise_deep(&b2) } else { exercise(&b2, reader_too) }).unwrap();
+        let h = std::thread::Builder::new().stack_size(stack_kib << 10).spawn(move || if nop { exercise_nop(&b2) } else if deep { exercise_deep(&b2) } else { exercise(&b2, reader_too) }).unwrap();
         let status = h.join().unwrap_or_else(|_| "panic thread".into());
         let _ = writeln!(out, "done {idx} {status}");
         let _ = out.flush();
@@ -360,7 +386,11 @@ fn generate(a: &Args) -> i32 {
                 // a change that makes a whole class of inputs hang or abort would cost the wall-clock limit per case:
                 // each worker stops after a few such cases (they are all reported; the sweep is then incomplete)
                 while pos < chunk.len() && out.iter().filter(|(_, s)| s.starts_with("hang") || s.starts_with("abort")).count() < 3 {
-                    let mut child = Command::new(&exe).args(["total", "worker"]).stdin(Stdio::piped()).stdout(Stdio::piped()).stderr(Stdio::null()).spawn().unwrap();
+                    // the deep inputs (stack probes) run in the small stand-alone program `stackprobe` (see its header: the
+                    // recursion is monomorphized in the binary that names the target type)
+                    let deep_phase = chunk[pos] >= n_short_ref;
+                    let mut cmd = if deep_phase { Command::new(exe.with_file_name("stackprobe")) } else { let mut c = Command::new(&exe); c.args(["total", "worker"]); c };
+                    let mut child = cmd.stdin(Stdio::piped()).stdout(Stdio::piped()).stderr(Stdio::null()).spawn().unwrap();
                     let mut cin = child.stdin.take().unwrap();
                     let cout = child.stdout.take().unwrap();
                     let (tx, rx) = std::sync::mpsc::channel::<String>();
@@ -368,6 +398,7 @@ fn generate(a: &Args) -> i32 {
                     loop {
                         if pos >= chunk.len() { break; }
                         let idx = chunk[pos];
+                        if (idx >= n_short_ref) != deep_phase { break; }
                         let bytes = &inputs_ref[idx];
                         let reader_too = true; // the former hanging class (fixed by bfd6267) is swept like every other input
                         if writeln!(cin, "{} {} {}", idx, if idx >= n_short_ref { "d" } else if reader_too { "r" } else { "s" }, hex_bytes(bytes)).is_err() { out.push((idx, "abort".into())); pos += 1; break; }
@@ -430,6 +461,27 @@ fn generate(a: &Args) -> i32 {
                 sink.count("known_hang_probe.hangs");
                 fails.push(serde_json::json!({"id": "C01-reader-directive-eof-hang", "what": "from_reader on input ending inside a directive name never returns (external scanner)", "input": hex_bytes(&probe), "input_text": "%YAML"}));
             }
+        }
+        let _ = child.kill();
+        let _ = child.wait();
+    }
+    // a target type that reads nothing (legal, if odd): the multi-document entry points must still terminate
+    for probe in [&b"a: 1\n"[..], &b"[1, 2]\n---\nx\n"[..]] {
+        let mut child = Command::new(&exe).args(["total", "worker"]).stdin(Stdio::piped()).stdout(Stdio::piped()).stderr(Stdio::null()).spawn().unwrap();
+        let mut cin = child.stdin.take().unwrap();
+        let cout = child.stdout.take().unwrap();
+        let (tx, rx) = std::sync::mpsc::channel::<String>();
+        std::thread::spawn(move || { for l in BufReader::new(cout).lines().map_while(Result::ok) { let _ = tx.send(l); } });
+        let _ = writeln!(cin, "0 n {}", hex_bytes(probe));
+        let _ = cin.flush();
+        let verdict = match rx.recv_timeout(Duration::from_secs(5)) {
+            Ok(l) if l.ends_with(" ok") => None,
+            Ok(l) => Some(l),
+            Err(_) => Some("no answer within 5 s (from_multiple never returns)".to_string()),
+        };
+        sink.count("nonconsuming_target_probe");
+        if let Some(v) = verdict {
+            fails.push(serde_json::json!({"id": "C01-nonconsuming-target-never-returns", "what": format!("target type whose Deserialize impl reads nothing: {v}"), "input": hex_bytes(probe), "input_text": String::from_utf8_lossy(probe)}));
         }
         let _ = child.kill();
         let _ = child.wait();
